@@ -404,6 +404,17 @@ func (w *Reconciler) syncCreateTasks(
 		}
 		rj = newRj
 		tasks = newTasks
+
+		// Creating a task may instead have adopted an existing task that was not yet
+		// recorded in the status. If the Job turns out to be complete because of it, we
+		// must not create any more tasks.
+		completion, err := parallel.GetParallelTaskSummary(rj, jobutil.GenerateTaskRefs(rj.Status.Tasks, tasks))
+		if err != nil {
+			return rj, tasks, errors.Wrapf(err, "cannot compute completion status")
+		}
+		if completion.Complete {
+			break
+		}
 	}
 
 	// Trigger a sync for earliest next create time.
